@@ -82,6 +82,11 @@ type target struct {
 	SSh  []Shout
 	SOHx []OwnHex
 	SUID []strfmt.UUID
+	SB64 []strfmt.Base64
+	// plain Go types a hand-written struct may use for formatted strings (level "structalt")
+	Raw    []byte
+	PlainS string
+	SRaw   [][]byte
 }
 
 // goTypeOf: the Go type a declaration denotes, as printed by %T, and the field of `target`.
@@ -138,7 +143,7 @@ func (d Decl) goType() (string, string) {
 	et, ef := d.elem()
 	if d.Type == "array" {
 		t, _ := goTypeOf(et, ef)
-		f := map[string]string{"string": "SS", "int32": "SI32", "int64": "SI64", "float64": "SF64", "bool": "SB", "main.Shout": "SSh", "main.OwnHex": "SOHx", "strfmt.UUID": "SUID"}[t]
+		f := map[string]string{"string": "SS", "int32": "SI32", "int64": "SI64", "float64": "SF64", "bool": "SB", "main.Shout": "SSh", "main.OwnHex": "SOHx", "strfmt.UUID": "SUID", "strfmt.Base64": "SB64"}[t]
 		return "[]" + t, f
 	}
 	return goTypeOf(et, ef)
@@ -156,6 +161,8 @@ func normalise(x interface{}) val {
 		return tv(time.Time(t).UnixNano())
 	case strfmt.Base64:
 		return val{K: "bytes", S: string(t)}
+	case []byte:
+		return val{K: "bytes", S: string(t)}
 	case strfmt.Duration:
 		return iv(int64(t))
 	case runtime.File:
@@ -163,7 +170,11 @@ func normalise(x interface{}) val {
 			return none()
 		}
 		b, _ := io.ReadAll(t.Data)
-		return val{K: "file", S: string(b)}
+		name := "<no header>"
+		if t.Header != nil {
+			name = fmt.Sprintf("%s(%d bytes)", t.Header.Filename, t.Header.Size)
+		}
+		return val{K: "file", S: name + ":" + string(b)}
 	}
 	v := reflect.ValueOf(x)
 	switch v.Kind() { //nolint:exhaustive
@@ -247,7 +258,7 @@ func prepare(level string, d Decl) (p *prepared) {
 	switch level {
 	case "helper":
 		// nothing to build: runtime.ReadSingleValue / ReadCollectionValue take the request's values
-	case "map", "mapptr", "struct":
+	case "map", "mapptr", "struct", "structalt":
 		sp, err := specParam(d)
 		if err != nil {
 			panic(err)
@@ -255,6 +266,10 @@ func prepare(level string, d Decl) (p *prepared) {
 		key := d.in() + "#" + d.Name
 		if level == "struct" {
 			_, key = d.goType()
+			p.field = key
+		}
+		if level == "structalt" {
+			key = altField(d)
 			p.field = key
 		}
 		p.binder = middleware.NewUntypedRequestBinder(map[string]spec.Parameter{key: sp}, new(spec.Swagger), registryFor(d))
@@ -390,7 +405,7 @@ func (p *prepared) execute(q Req) (o obs, ok bool) {
 				o.V = sv("RouteParams.Get differs: " + rp.Get(p.d.Name))
 			}
 		}
-	case "struct":
+	case "struct", "structalt":
 		var rp middleware.RouteParams
 		if p.d.Loc == "path" {
 			rp = middleware.RouteParams{{Name: p.d.Name, Value: string(q.Texts[0])}}
@@ -434,3 +449,31 @@ func (discardLogger) Printf(string, ...interface{}) {}
 func (discardLogger) Debugf(string, ...interface{}) {}
 
 func handlerLevel(level string) bool { return level == "handler" || level == "routes" || level == "serve" }
+
+func structLevel(level string) bool { return level == "struct" || level == "structalt" }
+
+// altField: the field of `target` with the plain Go type a hand-written struct
+// may use instead of the strfmt type ("" when the level does not apply).
+func altField(d Decl) string {
+	et, ef := d.elem()
+	if et != "string" {
+		return ""
+	}
+	switch {
+	case d.Type == "array":
+		return ""
+	case ef == "byte":
+		return "Raw"
+	case d.Type != "array" && (ef == "uuid" || ef == "email" || ef == "ipv4" || ef == "hexcolor"):
+		return "PlainS"
+	}
+	return ""
+}
+
+func fieldFor(level string, d Decl) string {
+	if level == "structalt" {
+		return altField(d)
+	}
+	_, f := d.goType()
+	return f
+}
